@@ -80,7 +80,7 @@ fn awd_list(src: &str, v: &[ast::ArgWithDefault]) -> Vec<P> {
     v.iter().map(|a| arg_p(src, &a.def, a.default.as_deref())).collect()
 }
 
-fn check(sig: &Sig, lambda: bool, rep: &mut Report) {
+fn check(sig: &Sig, lambda: bool, valid_order: bool, rep: &mut Report) {
     let src = render(sig, lambda);
     let strip = |v: &Vec<P>| -> Vec<P> {
         v.iter().map(|p| P { name: p.name.clone(), ann: if lambda { None } else { p.ann.clone() }, default: p.default.clone() }).collect()
@@ -90,11 +90,13 @@ fn check(sig: &Sig, lambda: bool, rep: &mut Report) {
         let args: ast::Arguments = if lambda {
             match ast::Expr::parse(&src, "<v>") {
                 Ok(ast::Expr::Lambda(l)) => *l.args,
+                Err(_) if !valid_order => return Err(("skip".into(), String::new(), String::new())),
                 other => return Err(("machinery".into(), format!("{:?}", other.map(|_| ())), "lambda".into())),
             }
         } else {
             match ast::Stmt::parse(&src, "<v>") {
                 Ok(ast::Stmt::FunctionDef(f)) => *f.args,
+                Err(_) if !valid_order => return Err(("skip".into(), String::new(), String::new())),
                 other => return Err(("machinery".into(), format!("{:?}", other.map(|_| ())), "def".into())),
             }
         };
@@ -201,6 +203,11 @@ fn check(sig: &Sig, lambda: bool, rep: &mut Report) {
     match r {
         Ok(Ok(())) => {}
         Ok(Err((what, obs, refv))) => {
+            if what == "skip" {
+                // a non-default parameter after a default one: the parser rejects it, there is no signature to convert
+                rep.outcome("invalid default order rejected by the parser");
+                return;
+            }
             if what == "machinery" {
                 eprintln!("c14: generated signature does not parse: {} ({})", src, obs);
                 std::process::exit(2);
@@ -218,7 +225,9 @@ pub fn run(kv: &BTreeMap<String, String>) -> String {
     let mut rep = Report::default();
     for npo in 0..=maxpo {
         for na in 0..=maxa {
-            for ndef in 0..=(npo + na) {
+            // every subset of the positional parameters carries a default: the valid ones (a trailing run) are converted; the others must be
+            // rejected by the parser, and whatever it lets through is converted as well (a wrongly accepted order would lose or move defaults)
+            for pmask in 0..(1u32 << (npo + na)) {
                 for var in 0..3 {
                     for nk in 0..=maxk {
                         if var == 2 && nk == 0 {
@@ -240,9 +249,13 @@ pub fn run(kv: &BTreeMap<String, String>) -> String {
                                         default: d.map(|i| format!("{}", 100 + i)),
                                     };
                                     let total = npo + na;
-                                    let first_def = total - ndef;
-                                    let posonly: Vec<P> = (0..npo).map(|i| mk(format!("p{}", i), ann & 1 != 0, if i >= first_def { Some(i) } else { None })).collect();
-                                    let args: Vec<P> = (0..na).map(|i| mk(format!("a{}", i), ann & 1 != 0, if npo + i >= first_def { Some(npo + i) } else { None })).collect();
+                                    let has = |i: usize| pmask >> i & 1 == 1;
+                                    let valid_order = (0..total).all(|i| !has(i) || (i + 1..total).all(has));
+                                    if !valid_order && (ann != 0 || kwarg == 1 || nk > 1) {
+                                        continue; // invalid orders: plain forms only
+                                    }
+                                    let posonly: Vec<P> = (0..npo).map(|i| mk(format!("p{}", i), ann & 1 != 0, if has(i) { Some(i) } else { None })).collect();
+                                    let args: Vec<P> = (0..na).map(|i| mk(format!("a{}", i), ann & 1 != 0, if has(npo + i) { Some(npo + i) } else { None })).collect();
                                     let kwonly: Vec<P> = (0..nk).map(|i| mk(format!("k{}", i), ann & 4 != 0, if kmask >> i & 1 == 1 { Some(50 + i) } else { None })).collect();
                                     let sig = Sig {
                                         posonly,
@@ -252,9 +265,9 @@ pub fn run(kv: &BTreeMap<String, String>) -> String {
                                         kwonly,
                                         kwarg: if kwarg == 1 { Some(mk("kw".into(), ann & 8 != 0, None)) } else { None },
                                     };
-                                    check(&sig, false, &mut rep);
+                                    check(&sig, false, valid_order, &mut rep);
                                     if ann == 0 {
-                                        check(&sig, true, &mut rep);
+                                        check(&sig, true, valid_order, &mut rep);
                                     }
                                     if rep.samples.len() < 6 && nk == maxk && kmask == 1 && npo == 1 && na == 1 && ann == 5 {
                                         rep.samples.push(render(&sig, false));
